@@ -229,7 +229,7 @@ pub fn run_history(s: &'static dyn Proto, data: &[u8], stats: &mut HistoryStats)
                     Err(x) => {
                         // an unaltered, well-formed request is always answered (C08: with or without a record)
                         if !changed {
-                            return viol(format!("server refused a genuine request: {x:?}"));
+                            return Err(format!("C01 suite {}: server refused a genuine request: {x:?}", m.name));
                         }
                     }
                     Ok((resp, state)) => {
